@@ -422,6 +422,148 @@ theorem slow_start_growth_exact (cb : Rat → Rat) (c : Cubic) (q r : Rat) (hq :
   simp only [Nat.min_def]
   split <;> split <;> omega
 
+/-! ### Clause 3 under the standard floating-point error model: at most ONE byte more than acknowledged
+
+`RoundErr rnd ε`: every rounding has relative error at most ε (binary64: ε = 2⁻⁵³ on the normal range). With
+byte magnitudes below 2⁵⁰ the slow-start growth of `window()` exceeds the acknowledged bytes by at most one
+byte - and D15 shows that one byte does occur. -/
+
+structure RoundErr (rnd : Rat → Rat) (ε : Rat) : Prop where
+  pos : 0 ≤ ε
+  err : ∀ x : Rat, |rnd x - x| ≤ ε * |x|
+
+theorem RoundErr.le {rnd : Rat → Rat} {ε : Rat} (E : RoundErr rnd ε) {x : Rat} (hx : 0 ≤ x) : rnd x ≤ x * (1 + ε) := by
+  have := (abs_le.mp (E.err x)).2
+  rw [abs_of_nonneg hx] at this
+  linarith
+
+theorem RoundErr.ge {rnd : Rat → Rat} {ε : Rat} (E : RoundErr rnd ε) {x : Rat} (hx : 0 ≤ x) : x * (1 - ε) ≤ rnd x := by
+  have := (abs_le.mp (E.err x)).1
+  rw [abs_of_nonneg hx] at this
+  linarith
+
+theorem floor_toNat_fin {x : Rat} (hx : 0 ≤ x) (hu : x < U64MAX) : toUsize (.fin x) = x.floor.toNat := by
+  have h0 : ¬ (x < 0) := not_lt.mpr hx
+  simp only [toUsize, h0, if_false]
+  apply Nat.min_eq_left
+  have h1 : x.floor ≤ (U64MAX : Int) := by
+    have := Rat.floor_le x
+    have h2 : (x.floor : Rat) < (U64MAX : Rat) := lt_of_le_of_lt this hu
+    have : x.floor < (U64MAX : Int) := by exact_mod_cast h2
+    omega
+  omega
+
+/-- the real-number core of the error analysis -/
+theorem growth_key (ε m q len a s y' P P' : Rat) (hε0 : 0 ≤ ε) (hε : ε * 2 ^ 53 ≤ 1) (hm : 0 < m) (hq0 : 0 ≤ q) (hl0 : 0 ≤ len)
+    (ha0 : 0 ≤ a) (h1 : a ≤ len / m * (1 + ε)) (h2 : s ≤ (q + a) * (1 + ε)) (hy2 : 2 ≤ y') (hy : y' ≤ max s 2)
+    (h3 : P' ≤ y' * m * (1 + ε)) (h4 : max q 2 * m * (1 - ε) ≤ P) (hmono : y' * m ≤ max q 2 * m → P' ≤ P)
+    (hK : max q 2 * m + len ≤ 2 ^ 50) : P' ≤ P + len + 1 := by
+  have hε1 : ε ≤ 1 := by nlinarith
+  by_cases hcase : s ≤ 2
+  · have hy' : y' ≤ 2 := le_trans hy (max_le hcase (le_refl _))
+    have : y' * m ≤ max q 2 * m := by
+      have : (2 : Rat) ≤ max q 2 := le_max_right _ _
+      nlinarith
+    have := hmono this
+    linarith
+  · have hs2 : 2 < s := not_le.mp hcase
+    have hy_s : y' ≤ s := le_trans hy (max_le (le_refl _) (le_of_lt hs2))
+    have hpos : (0 : Rat) ≤ 1 + ε := by linarith
+    have hM0 : 0 ≤ max q 2 * m := by positivity
+    have hqM : q * m ≤ max q 2 * m := by
+      have : q ≤ max q 2 := le_max_left _ _
+      nlinarith
+    have hlm : len / m * (1 + ε) * m = len * (1 + ε) := by field_simp
+    have hA : y' ≤ (q + len / m * (1 + ε)) * (1 + ε) := by
+      calc y' ≤ s := hy_s
+        _ ≤ (q + a) * (1 + ε) := h2
+        _ ≤ (q + len / m * (1 + ε)) * (1 + ε) := by nlinarith
+    have hB : y' * m ≤ (q * m + len * (1 + ε)) * (1 + ε) := by
+      calc y' * m ≤ (q + len / m * (1 + ε)) * (1 + ε) * m := by nlinarith
+        _ = (q * m + len / m * (1 + ε) * m) * (1 + ε) := by ring
+        _ = (q * m + len * (1 + ε)) * (1 + ε) := by rw [hlm]
+    have hC : q * m + len * (1 + ε) ≤ (max q 2 * m + len) * (1 + ε) := by nlinarith
+    have hD : y' * m ≤ (max q 2 * m + len) * ((1 + ε) * (1 + ε)) := by
+      calc y' * m ≤ (q * m + len * (1 + ε)) * (1 + ε) := hB
+        _ ≤ ((max q 2 * m + len) * (1 + ε)) * (1 + ε) := by nlinarith
+        _ = (max q 2 * m + len) * ((1 + ε) * (1 + ε)) := by ring
+    have hE : P' ≤ (max q 2 * m + len) * ((1 + ε) * (1 + ε) * (1 + ε)) := by
+      calc P' ≤ y' * m * (1 + ε) := h3
+        _ ≤ ((max q 2 * m + len) * ((1 + ε) * (1 + ε))) * (1 + ε) := by nlinarith
+        _ = (max q 2 * m + len) * ((1 + ε) * (1 + ε) * (1 + ε)) := by ring
+    have h7 : (1 + ε) * (1 + ε) * (1 + ε) ≤ 1 + 7 * ε := by
+      have e2 : ε * ε ≤ ε := by nlinarith
+      have e3 : ε * ε * ε ≤ ε := by nlinarith [mul_nonneg hε0 hε0]
+      nlinarith
+    have hK0 : 0 ≤ max q 2 * m + len := by linarith
+    have h8 : P' ≤ (max q 2 * m + len) * (1 + 7 * ε) := le_trans hE (mul_le_mul_of_nonneg_left h7 hK0)
+    have h9 : (max q 2 * m + len) * (8 * ε) ≤ 1 := by
+      have : (max q 2 * m + len) * (8 * ε) ≤ 2 ^ 50 * (8 * ε) := mul_le_mul_of_nonneg_right hK (by linarith)
+      have h53 : (2 : Rat) ^ 50 * (8 * ε) = ε * 2 ^ 53 := by ring
+      linarith
+    -- P' - P ≤ len + K*7ε + Mε ≤ len + K*8ε ≤ len + 1
+    have hMK : max q 2 * m * ε ≤ (max q 2 * m + len) * ε := by nlinarith
+    nlinarith
+
+/-- from reals to `as usize` -/
+theorem toUsize_step {P P' : Rat} (len : Nat) (hP0 : 0 ≤ P) (hP'0 : 0 ≤ P') (hPu : P < U64MAX) (hP'u : P' < U64MAX)
+    (key : P' ≤ P + len + 1) : toUsize (.fin P') ≤ toUsize (.fin P) + len + 1 := by
+  rw [floor_toNat_fin hP0 hPu, floor_toNat_fin hP'0 hP'u]
+  have hfl : P'.floor ≤ P.floor + len + 1 := by
+    have h1 : (P'.floor : Rat) ≤ P' := Rat.floor_le P'
+    have h2 : P < ((P.floor + 1 : Int) : Rat) := Rat.lt_floor_add_one P
+    have : (P'.floor : Rat) < ((P.floor + len + 2 : Int) : Rat) := by push_cast at h2 ⊢; linarith
+    have : P'.floor < P.floor + len + 2 := by exact_mod_cast this
+    omega
+  have hPf0 : 0 ≤ P.floor := by rw [floor_eq]; exact Int.floor_nonneg.mpr hP0
+  have hP'f0 : 0 ≤ P'.floor := by rw [floor_eq]; exact Int.floor_nonneg.mpr hP'0
+  omega
+
+/-- **In slow start one acknowledgement grows the window by at most the bytes it acknowledged plus ONE byte**,
+for every rounding operator with relative error ≤ 2⁻⁵³ (binary64) and byte magnitudes below 2⁵⁰. -/
+theorem slow_start_growth_within_one_byte {e : FEnv} {ε : Rat} (R : Rounding e.rnd) (E : RoundErr e.rnd ε)
+    (hε : ε * 2 ^ 53 ≤ 1) (c : Cubic) (q r : Rat) (hq : c.cwnd = .fin q) (hq0 : 0 ≤ q) (hr : c.rwnd = .fin r)
+    (hm : 0 < c.mss) (hms : c.mss < 2 ^ 53) (hss : XR.lt c.cwnd c.ssthresh = true) (now len rtt : Nat) (hlen : len < 2 ^ 53)
+    (hB : max q 2 * c.mss + len ≤ 2 ^ 50) :
+    (c.onAck e now len rtt).window e ≤ c.window e + len + 1 := by
+  have hmq : (c.mss : Rat) ≠ 0 := by exact_mod_cast (Nat.pos_iff_ne_zero.mp hm)
+  have hmp : (0 : Rat) < c.mss := by exact_mod_cast hm
+  have hε0 := E.pos
+  have hε1 : ε ≤ 1 := by nlinarith [hε, hε0]
+  simp only [Cubic.onAck, Cubic.onAckWith]
+  split
+  · omega
+  split
+  · omega
+  have hmssF : c.mssF e = .fin (c.mss : Rat) := mssF_eq R c hms
+  have ha0 : 0 ≤ e.rnd ((len : Rat) / c.mss) := R.nonneg (by positivity)
+  have hs0 : 0 ≤ e.rnd (q + e.rnd ((len : Rat) / c.mss)) := R.nonneg (by positivity)
+  have hcl : ∃ y, XR.max (XR.min (.fin (e.rnd (q + e.rnd ((len : Rat) / c.mss)))) (.fin r)) Cubic.two = .fin y ∧
+      y ≤ max (e.rnd (q + e.rnd ((len : Rat) / c.mss))) 2 := by
+    by_cases h : r < e.rnd (q + e.rnd ((len : Rat) / c.mss))
+    · exact ⟨max r 2, by simp [XR.min, XR.lt, h, max_fin_two], max_le_max (le_of_lt h) (le_refl _)⟩
+    · exact ⟨max (e.rnd (q + e.rnd ((len : Rat) / c.mss))) 2, by simp [XR.min, XR.lt, h, max_fin_two], le_refl _⟩
+  obtain ⟨y, hy, hyle⟩ := hcl
+  have hgoal : toUsize (.fin (e.rnd (max y 2 * (c.mss : Rat)))) ≤ toUsize (.fin (e.rnd (max q 2 * (c.mss : Rat)))) + len + 1 := by
+    have hM0 : 0 ≤ max q 2 * (c.mss : Rat) := by positivity
+    have hl0 : (0 : Rat) ≤ len := by positivity
+    have key := growth_key ε c.mss q len (e.rnd ((len : Rat) / c.mss)) (e.rnd (q + e.rnd ((len : Rat) / c.mss))) (max y 2)
+      (e.rnd (max q 2 * (c.mss : Rat))) (e.rnd (max y 2 * (c.mss : Rat))) hε0 hε hmp hq0 hl0 ha0
+      (E.le (by positivity)) (E.le (by positivity)) (le_max_right _ _) (max_le hyle (le_max_right _ _))
+      (E.le (by positivity)) (E.ge hM0) (fun h => R.mono h) hB
+    have hP0 : 0 ≤ e.rnd (max q 2 * (c.mss : Rat)) := R.nonneg hM0
+    have hP'0 : 0 ≤ e.rnd (max y 2 * (c.mss : Rat)) := R.nonneg (by positivity)
+    have hPle : e.rnd (max q 2 * (c.mss : Rat)) ≤ 2 ^ 50 * 2 := by
+      have := E.le (rnd := e.rnd) hM0
+      nlinarith
+    have hlK : (len : Rat) ≤ 2 ^ 50 := by linarith
+    have h64 : (2 : Rat) ^ 50 * 2 + 2 ^ 50 + 1 < (U64MAX : Rat) := by simp only [U64MAX]; norm_num
+    exact toUsize_step len hP0 hP'0 (by linarith) (by linarith) key
+  simp only [hss, if_true, hq, hr, hmssF, XR.ofNat, R.exactNat len hlen, XR.div, hmq, if_false, XR.add, Cubic.window, Cubic.mssF,
+    R.exactNat c.mss hms, hy, max_fin_two, XR.mul]
+  simp only [Nat.min_def]
+  split <;> split <;> omega
+
 /-! ### Clause 4: an MSS change rescales the window (exact arithmetic) -/
 
 /-- **Changing the MSS keeps the window's byte value once the peer window is re-applied** (above the
@@ -443,7 +585,112 @@ theorem mss_change_rescales_exact (cb : Rat → Rat) (c : Cubic) (q : Rat) (hq :
     congr 2
     field_simp
 
+/-! ### Clause 4 under the floating-point error model: the byte value moves by at most ONE byte -/
+
+/-- real-number core: `P = rnd(q·mss)`, `P' = rnd(rnd(q·rnd(mss/m))·m)` differ by at most 1 -/
+theorem rescale_key (ε mss m q ρ c' P P' : Rat) (hε0 : 0 ≤ ε) (hε : ε * 2 ^ 53 ≤ 1) (hmss : 0 < mss) (hm : 0 < m) (hq0 : 0 ≤ q)
+    (hρ1 : ρ ≤ mss / m * (1 + ε)) (hρ2 : mss / m * (1 - ε) ≤ ρ)
+    (hc1 : c' ≤ q * ρ * (1 + ε)) (hc2 : q * ρ * (1 - ε) ≤ c') (hc0 : 0 ≤ c')
+    (hP'1 : P' ≤ c' * m * (1 + ε)) (hP'2 : c' * m * (1 - ε) ≤ P')
+    (hP1 : P ≤ q * mss * (1 + ε)) (hP2 : q * mss * (1 - ε) ≤ P) (hK : q * mss ≤ 2 ^ 50) :
+    P' ≤ P + 1 ∧ P ≤ P' + 1 := by
+  have hε1 : ε ≤ 1 := by nlinarith
+  have hK0 : 0 ≤ q * mss := by positivity
+  have hpos : (0 : Rat) ≤ 1 + ε := by linarith
+  have hneg : (0 : Rat) ≤ 1 - ε := by linarith
+  have hmm : mss / m * m = mss := by field_simp
+  have hρ0 : 0 ≤ ρ := le_trans (by positivity) hρ2
+  -- c' * m is within (1±ε)^2 of q*mss
+  have hu : c' * m ≤ q * mss * ((1 + ε) * (1 + ε)) := by
+    calc c' * m ≤ q * ρ * (1 + ε) * m := mul_le_mul_of_nonneg_right hc1 (le_of_lt hm)
+      _ ≤ q * (mss / m * (1 + ε)) * (1 + ε) * m := by
+          have : q * ρ ≤ q * (mss / m * (1 + ε)) := mul_le_mul_of_nonneg_left hρ1 hq0
+          exact mul_le_mul_of_nonneg_right (mul_le_mul_of_nonneg_right this hpos) (le_of_lt hm)
+      _ = q * (mss / m * m) * ((1 + ε) * (1 + ε)) := by ring
+      _ = q * mss * ((1 + ε) * (1 + ε)) := by rw [hmm]
+  have hl : q * mss * ((1 - ε) * (1 - ε)) ≤ c' * m := by
+    calc q * mss * ((1 - ε) * (1 - ε)) = q * (mss / m * m) * ((1 - ε) * (1 - ε)) := by rw [hmm]
+      _ = q * (mss / m * (1 - ε)) * (1 - ε) * m := by ring
+      _ ≤ q * ρ * (1 - ε) * m := by
+          have : q * (mss / m * (1 - ε)) ≤ q * ρ := mul_le_mul_of_nonneg_left hρ2 hq0
+          exact mul_le_mul_of_nonneg_right (mul_le_mul_of_nonneg_right this hneg) (le_of_lt hm)
+      _ ≤ c' * m := mul_le_mul_of_nonneg_right hc2 (le_of_lt hm)
+  have hcm0 : 0 ≤ c' * m := by positivity
+  have hU : P' ≤ q * mss * ((1 + ε) * (1 + ε) * (1 + ε)) := by
+    calc P' ≤ c' * m * (1 + ε) := hP'1
+      _ ≤ q * mss * ((1 + ε) * (1 + ε)) * (1 + ε) := by nlinarith
+      _ = q * mss * ((1 + ε) * (1 + ε) * (1 + ε)) := by ring
+  have hL : q * mss * ((1 - ε) * (1 - ε) * (1 - ε)) ≤ P' := by
+    calc q * mss * ((1 - ε) * (1 - ε) * (1 - ε)) = q * mss * ((1 - ε) * (1 - ε)) * (1 - ε) := by ring
+      _ ≤ c' * m * (1 - ε) := by nlinarith
+      _ ≤ P' := hP'2
+  have e2 : ε * ε ≤ ε := by nlinarith
+  have e3 : ε * ε * ε ≤ ε := by nlinarith [mul_nonneg hε0 hε0]
+  have e3' : 0 ≤ ε * ε * ε := mul_nonneg (mul_nonneg hε0 hε0) hε0
+  have h7 : (1 + ε) * (1 + ε) * (1 + ε) ≤ 1 + 7 * ε := by nlinarith
+  have h7' : 1 - 3 * ε - ε ≤ (1 - ε) * (1 - ε) * (1 - ε) := by nlinarith [mul_nonneg hε0 hε0]
+  have h9 : q * mss * (8 * ε) ≤ 1 := by
+    have : q * mss * (8 * ε) ≤ 2 ^ 50 * (8 * ε) := mul_le_mul_of_nonneg_right hK (by linarith)
+    have h53 : (2 : Rat) ^ 50 * (8 * ε) = ε * 2 ^ 53 := by ring
+    linarith
+  have hU' : P' ≤ q * mss * (1 + 7 * ε) := le_trans hU (mul_le_mul_of_nonneg_left h7 hK0)
+  have hL' : q * mss * (1 - 4 * ε) ≤ P' := le_trans (by nlinarith) hL
+  constructor <;> nlinarith
+
+theorem toUsize_close {P P' : Rat} (hP0 : 0 ≤ P) (hP'0 : 0 ≤ P') (hPu : P < U64MAX) (hP'u : P' < U64MAX)
+    (h1 : P' ≤ P + 1) : toUsize (.fin P') ≤ toUsize (.fin P) + 1 := by
+  have := toUsize_step (P := P) (P' := P') 0 hP0 hP'0 hPu hP'u (by simpa using h1)
+  simpa using this
+
+/-- **Changing the MSS keeps the window's byte value, up to ONE byte, once the peer window is re-applied**
+(above the two-segment floor of the new MSS), for every rounding operator with relative error ≤ 2⁻⁵³ and
+byte magnitudes below 2⁵⁰. -/
+theorem mss_change_rescales_within_one_byte {e : FEnv} {ε : Rat} (R : Rounding e.rnd) (E : RoundErr e.rnd ε)
+    (hε : ε * 2 ^ 53 ≤ 1) (c : Cubic) (q : Rat) (hq : c.cwnd = .fin q) (hq2 : 2 ≤ q)
+    (hm : 0 < c.mss) (hms : c.mss < 2 ^ 53) (m : Nat) (hm' : 0 < m) (hm's : m < 2 ^ 53) (hne : c.mss ≠ m)
+    (hfloor : 2 ≤ e.rnd (q * e.rnd ((c.mss : Rat) / m))) (hK : q * c.mss ≤ 2 ^ 50) :
+    let w' := ((c.setMss e m).setRemoteWindow e c.rwndBytes).window e
+    w' ≤ c.window e + 1 ∧ c.window e ≤ w' + 1 := by
+  intro w'
+  have hmq : (c.mss : Rat) ≠ 0 := by exact_mod_cast (Nat.pos_iff_ne_zero.mp hm)
+  have hmq' : (m : Rat) ≠ 0 := by exact_mod_cast (Nat.pos_iff_ne_zero.mp hm')
+  have hmp : (0 : Rat) < c.mss := by exact_mod_cast hm
+  have hmp' : (0 : Rat) < m := by exact_mod_cast hm'
+  have hε0 := E.pos
+  have hq0 : 0 ≤ q := by linarith
+  have hρ0 : (0 : Rat) ≤ (c.mss : Rat) / m := by positivity
+  have hc0 : 0 ≤ q * e.rnd ((c.mss : Rat) / m) := mul_nonneg hq0 (R.nonneg hρ0)
+  have hc'0 : 0 ≤ e.rnd (q * e.rnd ((c.mss : Rat) / m)) := R.nonneg hc0
+  have hcm0 : 0 ≤ e.rnd (q * e.rnd ((c.mss : Rat) / m)) * (m : Rat) := by positivity
+  have hqm0 : 0 ≤ q * (c.mss : Rat) := by positivity
+  have key := rescale_key ε c.mss m q (e.rnd ((c.mss : Rat) / m)) (e.rnd (q * e.rnd ((c.mss : Rat) / m)))
+    (e.rnd (q * (c.mss : Rat))) (e.rnd (e.rnd (q * e.rnd ((c.mss : Rat) / m)) * (m : Rat)))
+    hε0 hε hmp hmp' hq0 (E.le hρ0) (E.ge hρ0) (E.le hc0) (E.ge hc0) hc'0 (E.le hcm0) (E.ge hcm0) (E.le hqm0) (E.ge hqm0) hK
+  have hP0 : 0 ≤ e.rnd (q * (c.mss : Rat)) := R.nonneg hqm0
+  have hP'0 : 0 ≤ e.rnd (e.rnd (q * e.rnd ((c.mss : Rat) / m)) * (m : Rat)) := R.nonneg hcm0
+  have hε1 : ε ≤ 1 := by nlinarith
+  have hPle : e.rnd (q * (c.mss : Rat)) ≤ 2 ^ 50 * 2 := by
+    have := E.le (rnd := e.rnd) hqm0
+    nlinarith
+  have h64 : (2 : Rat) ^ 50 * 2 + 1 < (U64MAX : Rat) := by simp only [U64MAX]; norm_num
+  have hPu : e.rnd (q * (c.mss : Rat)) < U64MAX := by linarith
+  have hP'u : e.rnd (e.rnd (q * e.rnd ((c.mss : Rat) / m)) * (m : Rat)) < U64MAX := by linarith [key.1]
+  have g1 := toUsize_close hP0 hP'0 hPu hP'u key.1
+  have g2 := toUsize_close hP'0 hP0 hP'u hPu key.2
+  have hw : c.window e = min (toUsize (.fin (e.rnd (q * (c.mss : Rat))))) c.rwndBytes := by
+    simp only [Cubic.window, Cubic.mssF, XR.ofNat, R.exactNat c.mss hms, hq, max_fin_two, max_eq_left hq2, XR.mul]
+  have hw' : w' = min (toUsize (.fin (e.rnd (e.rnd (q * e.rnd ((c.mss : Rat) / m)) * (m : Rat))))) c.rwndBytes := by
+    show ((c.setMss e m).setRemoteWindow e c.rwndBytes).window e = _
+    simp only [Cubic.setMss, hne, if_false, Cubic.setRemoteWindow, Cubic.window, Cubic.mssF, XR.ofNat, R.exactNat c.mss hms,
+      R.exactNat m hm's, hq, XR.div, hmq', XR.mul, max_fin_two, max_eq_left hfloor]
+  rw [hw, hw']
+  simp only [Nat.min_def]
+  constructor <;> (split <;> split <;> omega)
+
 /-! ### Non-vacuity -/
+
+example : RoundErr id 0 := ⟨le_refl _, fun x => by simp⟩
+
 
 example : Inv (exact id) (Cubic.new 0 1400) := new_inv _ rounding_id 0 1400 (by norm_num) (by norm_num)
 
